@@ -170,6 +170,12 @@ func runC03(rep Rep, w World) {
 func TestC03(t *testing.T) {
 	o := histOpts
 	o.untyped = true
+	w := opWeights{}
+	for k, v := range defaultWeights {
+		w[k] = v
+	}
+	w[OpAddStrayPod] = 1
+	o.weights = w
 	checkCases(t, "C03", func(rt *rapid.T) World { return genWorld(rt, o) }, runC03)
 }
 func TestRegressC03(t *testing.T) { regress(t, "C03", runC03) }
